@@ -363,11 +363,14 @@ class ODE:
         if not isinstance(__o, ODE):
             return False
 
-        return (
-            __o.comments == self.comments
-            and __o.components == self.components
-            and __o.name == self.name
+        # The order of the components follows the order in which they first
+        # appear in the text, which carries no meaning
+        same_components = (
+            len(__o.components) == len(self.components)
+            and all(comp in self.components for comp in __o.components)
+            and all(comp in __o.components for comp in self.components)
         )
+        return __o.comments == self.comments and same_components and __o.name == self.name
 
     def simplify(self) -> ODE:
         """Run sympy's simplify function on all expressions in the ODE"""
